@@ -521,7 +521,7 @@ def main():
         run.violation("table translator failed closed: " + "; ".join(errors), dict(kind="translator", errors=errors), False)
         return run.finish()
     if changed: run.log("tables regenerated:", changed)
-    ok, log = run.build(["Proofs/C11/Tokenizer.vo", "Proofs/C11/Time.vo", "Proofs/C11/Region.vo", "Proofs/C11/Tree.vo", "Model/VttCases.vo"],
+    ok, log = run.build(["Proofs/C11/Tokenizer.vo", "Proofs/C11/Time.vo", "Proofs/C11/Region.vo", "Proofs/C11/Tree.vo", "Proofs/C11/Lines.vo", "Model/VttCases.vo"],
                         clean=(run.tier == "thorough"))
     proofs_ok = ok and run.theorems()
     if not ok: run.proof_log = log[-2500:]
